@@ -472,6 +472,33 @@ func shapeFacts() map[string]any {
 		chaseOK = label != 0 && check != 0 && jump != 0 && len(ex) > 0 && label < check && check < minPos(ex) && minPos(ex) < jump
 	}
 	out["shape_chase_checks_deadline"] = chaseOK
+	// the chase state of one level — the hop budget `cnameDepth := 10` and the visited `targets` — is
+	// initialised BEFORE the `lookup:` loop, so it accumulates over the hops
+	stateOK := false
+	if fd := cf.fn("Cache", "additionalAnswer"); fd != nil {
+		var label, depthDecl, targetsDecl token.Pos
+		hopCap := ""
+		ast.Inspect(fd.Body, func(x ast.Node) bool {
+			switch st := x.(type) {
+			case *ast.LabeledStmt:
+				if st.Label.Name == "lookup" {
+					label = st.Pos()
+				}
+			case *ast.AssignStmt:
+				if st.Tok == token.DEFINE && len(st.Lhs) == 1 && len(st.Rhs) == 1 {
+					switch cf.text(st.Lhs[0]) {
+					case "cnameDepth":
+						depthDecl, hopCap = st.Pos(), cf.text(st.Rhs[0])
+					case "targets":
+						targetsDecl = st.Pos()
+					}
+				}
+			}
+			return true
+		})
+		stateOK = label != 0 && depthDecl != 0 && targetsDecl != 0 && depthDecl < label && targetsDecl < label && hopCap == "10"
+	}
+	out["shape_chase_state_outside_loop"] = stateOK
 
 	// every resolveState literal (the restart states included) carries the request tree's ledger
 	lits, withWork := 0, 0
